@@ -316,6 +316,11 @@ class C04:
                     tainted = tainted or nan
                 elif not tainted and l0 != b_spec:
                     out.append(("oracle", "order", {"op": op, "impl": l0, "spec": b_spec, "why": "level 0 is not the prescribed sorted set"}))
+                if not tainted and l0 != b_spec:
+                    if why is None:
+                        self.ask_model("sl setspec " + l0)
+                    else:
+                        tainted = True
                 if record:
                     rep.count("sl." + name)
                     rep.nontrivial(("sl", name, min(h, 6) if h is not None else -1, min(post[2], 6), b_inv, old != "old=none", tainted))
@@ -420,7 +425,6 @@ class C04:
                 post, postc = self.impl_dump(key)
                 h = infer_height(pre, post, op[1]) if post else 0
                 b = self.ask_model("zs zadd %s %d %s %s" % (key, h, op[1], key_of_bits(op[2])))
-                shadow[op[1]] = op[2]
                 nanflag = is_nan_bits(op[2])
             elif name == "zincrby":
                 cur = shadow.get(op[1])
@@ -429,7 +433,6 @@ class C04:
                 post, postc = self.impl_dump(key)
                 h = infer_height(pre, post, op[1]) if post else 0
                 b = self.ask_model("zs zincrby %s %d %s %s" % (key, h, op[1], key_of_bits(summ)))
-                shadow[op[1]] = summ
                 nanflag = is_nan_bits(summ)
                 if a not in (None, "panic") and not a.startswith("err"):
                     if not tainted and not nanflag and int(a, 16) != summ and not (float_of(int(a, 16)) == 0.0 == float_of(summ)):
@@ -439,14 +442,15 @@ class C04:
                 a = self.ask_impl("zs zrem %s %s" % (key, op[1]))
                 post, postc = self.impl_dump(key)
                 b = self.ask_model("zs zrem %s %s" % (key, op[1]))
-                shadow.pop(op[1], None)
             elif name == "pop":
                 a = self.ask_impl("zs pop %s %s" % (key, op[1]))
                 post, postc = self.impl_dump(key)
                 b = self.ask_model("zs pop %s %s" % (key, op[1]))
-                if a not in (None, "panic", "none") and not a.startswith(("err", "lost")):
+                if a is not None and a.startswith("lost"):
+                    rep.count("zs.pop.member-not-removable")      # zrange showed a member that zrem does not find (NaN ghost): nothing is pushed
+                    a = "none"
+                if a not in (None, "panic", "none") and not a.startswith("err"):
                     a = canon_items(a)
-                    shadow.pop(a.split(":")[0], None)
             else:
                 post, postc = None, None
                 if name == "zscore":
@@ -510,6 +514,15 @@ class C04:
                         out.append(("oracle", "key-removal", {"op": op, "impl": postc, "spec": z, "why": "key must exist exactly while the set is non-empty"}))
             if post is not None:
                 pre = post if postc != "absent" else EMPTY_DUMP
+                shadow = dict(self.obs_index)      # the scores the implementation holds now (input of the next IEEE sum)
+                l0 = "." if postc == "absent" else (",".join("%s:%s" % e for e in post[0][0]) or ".")
+                if not tainted and l0 != f["Z"]:
+                    # judged above; the next step is judged from the state the implementation is really in
+                    if dump_invariant(*post) is None:
+                        self.ask_model("zs setspec %s %s" % (key, l0))
+                        f["Z"] = l0
+                    else:
+                        tainted = True
                 n_spec = 0 if f["Z"] == "." else f["Z"].count(",") + 1
             if record:
                 rep.count("zs." + name)
@@ -521,10 +534,14 @@ class C04:
 
     def impl_dump(self, key):
         d = self.ask_impl("zs dump " + key)
+        self.obs_index = {}
         if d in (None, "panic", "err", "wrongtype"):
             return None, d
         if d == "absent":
             return EMPTY_DUMP, "absent"
+        ix = dict(p.split("=", 1) for p in d.split(" "))["I"]
+        if ix != ".":
+            self.obs_index = {m: int(b, 16) for m, b in (it.split(":") for it in ix.split(","))}
         c = canon_dump(d)
         return parse_dump(c), c
 
@@ -577,6 +594,7 @@ class C04:
         items = []
         for j in range(0, len(xs) - 1, 2):
             items.append("%s:%s" % (hx(xs[j][1]), key_of_bits(bits_of(float(xs[j + 1][1].decode())))))
+        self.obs_index = {xs[j][1]: bits_of(float(xs[j + 1][1].decode())) for j in range(0, len(xs) - 1, 2)}
         card = c.cmd("ZCARD", key)
         ex = c.cmd("EXISTS", key)
         return ",".join(items) or ".", card[1] if card[0] == "i" else card, ex[1] if ex[0] == "i" else ex
@@ -609,9 +627,6 @@ class C04:
                     r = c.cmd(*args)
                     a = str(r[1]) if r[0] == "i" else ("err" if r[0] == "e" else repr(r))
                     b = self.ask_model("cmd zadd %s %s %s" % (kx, ",".join("0" for _ in pairs), ",".join(toks)))
-                    if a != "err":
-                        for t, m in pairs:
-                            shadow[m] = self.score_of_text(t)
                 elif name == "ZINCRBY":
                     t, m = unhx(op[1]), unhx(op[2])
                     inc = self.score_of_text(t)
@@ -624,7 +639,6 @@ class C04:
                     if r[0] == "b":
                         got = bits_of(float(r[1].decode()))
                         a = key_of_bits(got)
-                        shadow[m] = summ
                     else:
                         a = "err" if r[0] == "e" else repr(r)
                     b = self.ask_model("cmd zincrby %s 0 %s %s" % (kx, hx(m), key_of_bits(summ)))
@@ -636,8 +650,6 @@ class C04:
                     elif r[0] == "a":
                         xs = r[1]
                         a = ",".join("%s:%s" % (hx(xs[j][1]), key_of_bits(bits_of(float(xs[j + 1][1].decode())))) for j in range(0, len(xs) - 1, 2)) or "."
-                        for j in range(0, len(xs) - 1, 2):
-                            shadow.pop(xs[j][1], None)
                     else:
                         a = repr(r)
                     b = self.ask_model("cmd zpop %s %s %d" % (kx, op[1], 1 if op[2] is None else op[2]))
@@ -679,6 +691,13 @@ class C04:
                     elif l0 != f["Z"] or card != spec_n or ex != int(spec_n > 0):
                         out.append(("oracle", "state", {"op": op, "impl": [l0, card, ex], "spec": [f["Z"], spec_n, int(spec_n > 0)], "layer": "tcp",
                                                         "why": "stored set / ZCARD / key existence differ from the prescribed ones"}))
+                shadow = dict(self.obs_index)
+                if not tainted and l0 != f["Z"]:
+                    members = [e.split(":")[0] for e in l0.split(",")] if l0 != "." else []
+                    if "nan" in l0 or len(set(members)) != len(members):
+                        tainted = True
+                    else:
+                        self.ask_model("zs setspec %s %s" % (kx, l0))
                 if record:
                     rep.count("tcp." + name)
                     rep.nontrivial(("tcp", name, a == "err", f["S"] == "err", min(a.count(","), 4), f["D"], tainted, ex))
